@@ -139,6 +139,9 @@ func capAddressSpace(budget uint64) {
 		lim = vm + budget
 	}
 	syscall.Setrlimit(syscall.RLIMIT_AS, &syscall.Rlimit{Cur: lim, Max: lim})
+	// GOTRACEBACK=crash (needed to see the stack of a goroutine that is spinning on another thread when
+	// the watchdog's SIGQUIT arrives) ends with SIGABRT: no core files, please
+	syscall.Setrlimit(syscall.RLIMIT_CORE, &syscall.Rlimit{Cur: 0, Max: 0})
 }
 
 func caseHash(c Case) uint64 {
@@ -266,7 +269,7 @@ func startWorker() (*worker, error) {
 	os.Remove(crumb)
 	cmd := exec.Command(exe, "-test.run=^$")
 	cmd.Env = append(os.Environ(), "C04_WORKER=1", "C04_CRUMB="+crumb, "VERIF_STATUS=", "VERIF_EVIDENCE=/dev/null", "VERIF_REPLAY=",
-		"GOTRACEBACK=all", "GOMAXPROCS=2")
+		"GOTRACEBACK=crash", "GOMAXPROCS=2")
 	w := &worker{cmd: cmd, stderr: &tailBuf{}, crumb: crumb, lines: make(chan []byte, 4)}
 	cmd.Stderr = w.stderr
 	if w.in, err = cmd.StdinPipe(); err != nil {
